@@ -1,1 +1,211 @@
-def main : IO Unit := IO.println "stub"
+import Nsq.Model.Line
+import Nsq.Model.Chan
+import Nsq.Model.ChanNsqd
+import Nsq.Model.ChanInv
+/-! Driver for engine E2 (nsqd / topic / channel / client state machine).
+One operation per input line, one canonical answer line out (DESIGN Appendix B). -/
+open Nsq Nsq.Line
+open Nsq.Model.Chan (Chan Client Entry Out Conf Loc findC isInflight isDeferred)
+open Nsq.Model.ChanNsqd
+
+def nat? (s : String) : Option Nat := s.toNat?
+def int? (s : String) : Option Int := s.toInt?
+
+def joinSp (l : List String) : String := " ".intercalate l
+
+def insSorted (lt : α → α → Bool) (x : α) : List α → List α
+  | [] => [x]
+  | y :: ys => if lt x y then x :: y :: ys else y :: insSorted lt x ys
+def sortBy (lt : α → α → Bool) (l : List α) : List α := l.foldr (insSorted lt) []
+
+def showOut : Out → String
+  | .ok => "ok"
+  | .msg a => s!"msg {Nsq.Model.Chan.wireAttempts a}"
+  | .err code fatal => s!"{code} {if fatal then "fatal" else "nonfatal"}"
+  | .ids l => joinSp ("ids" :: l.map toString)
+  | .reject why => s!"REJECT {why}"
+
+def showSorted : Out → String
+  | .ids l => joinSp ("ids" :: (sortBy (· < ·) l).map toString)
+  | o => showOut o
+
+def b (x : Bool) : String := if x then "1" else "0"
+
+def dumpChan (c : Chan) : String :=
+  let es := sortBy (fun (a b : Entry) => a.id < b.id) c.msgs
+  let infl := es.filterMap (fun e => match e.loc with
+    | .inflight k p d => some s!"{e.id}:{k}:{Nsq.Model.Chan.wireAttempts e.att}:{p}:{d}" | _ => none)
+  let defd := es.filterMap (fun e => match e.loc with
+    | .deferred p => some s!"{e.id}:{Nsq.Model.Chan.wireAttempts e.att}:{p}" | _ => none)
+  let cls := (sortBy (fun (a b : Client) => a.conn < b.conn) c.clients).map (fun cl =>
+    s!"{cl.conn}:{cl.rdy}:{cl.inFlight}:{cl.msgCount}:{cl.finCount}:{cl.reqCount}:{b cl.closing}")
+  s!"depth={c.memLen + c.dqLen} inflight=[{joinSp infl}] deferred=[{joinSp defd}] mc={c.messageCount} rq={c.requeueCount} to={c.timeoutCount} paused={b c.paused} clients=[{joinSp cls}]"
+
+/-- the `/stats` projection of a channel (what `NewChannelStats` + `clientV2.Stats` report) -/
+def statsChan (c : Chan) : String :=
+  let cls := (sortBy (fun (a b : Client) => a.conn < b.conn) c.clients).map (fun cl =>
+    s!"{cl.conn}:{cl.rdy}:{cl.inFlight}:{cl.msgCount}:{cl.finCount}:{cl.reqCount}")
+  s!"depth={c.memLen + c.dqLen} bdepth={c.dqLen} inflight={(c.msgs.filter isInflight).length} deferred={(c.msgs.filter isDeferred).length} mc={c.messageCount} rq={c.requeueCount} to={c.timeoutCount} paused={b c.paused} nclients={c.clients.length} clients=[{joinSp cls}]"
+
+def dumpTopic (t : Topic) : String :=
+  s!"depth={t.queue.length} bdepth={dqLenT t} mc={t.msgCount} mb={t.msgBytes} paused={b t.paused} chans=[{joinSp ((sortBy (· < ·) (t.chans.map (·.cid))).map toString)}]"
+
+def withChan (s : State) (t c : Nat) (f : Chan → String) : String :=
+  match findT s.topics t with
+  | none => "no-topic"
+  | some tp => match findN tp.chans c with
+    | none => "no-chan"
+    | some nc => f nc.ch
+
+/-- `protocol.ByteToBase10` followed by `int64(b10)`: digits only, values ≥ 2^64 are a parse
+error (fix 43ed751), values ≥ 2^63 wrap negative -/
+def parseCount (s : String) : Option Int :=
+  if s.isEmpty then none else
+  if !s.all Char.isDigit then none else
+  match s.toNat? with
+  | none => none
+  | some v => if v ≥ 18446744073709551616 then none
+              else if v ≥ 9223372036854775808 then some ((v : Int) - 18446744073709551616) else some v
+
+def natList (s : String) : Option (List Nat) :=
+  if s = "-" then some [] else
+  (s.splitOn ",").mapM (·.toNat?)
+
+def priPairs (ws : List String) : Option (List (Nat × Int)) :=
+  ws.mapM (fun w => match w.splitOn ":" with
+    | [c, p] => match c.toNat?, p.toInt? with
+      | some c, some p => some (c, p)
+      | _, _ => none
+    | _ => none)
+
+/-- a real channel state dumped at a quiescent point of the concurrent leg: rebuild the model
+channel (locations, counters) and evaluate the history-free conjuncts of the invariant on it -/
+def rchanCheck (eph memq mem dq mc q ifs dfs cls : String) : String :=
+  let lst (s : String) : List String := if s = "-" then [] else s.splitOn ","
+  let qids := (lst ((q.drop 2).toString)).filterMap (·.toNat?)
+  let ife := (lst ((ifs.drop 3).toString)).filterMap (fun w => match w.splitOn ":" with
+    | [i, c] => match i.toNat?, c.toNat? with | some i, some c => some (i, c) | _, _ => none
+    | _ => none)
+  let dids := (lst ((dfs.drop 3).toString)).filterMap (·.toNat?)
+  let cl := (lst ((cls.drop 3).toString)).filterMap (fun w => match w.splitOn ":" with
+    | [c, r, i] => match c.toNat?, r.toInt?, i.toInt? with | some c, some r, some i => some (c, r, i) | _, _, _ => none
+    | _ => none)
+  match memq.toNat?, mem.toNat?, dq.toNat?, mc.toNat? with
+  | some memq, some mem, some dq, some mc =>
+    let msgs : List Entry := qids.map (fun i => ⟨i, 0, .queued⟩) ++ ife.map (fun p => ⟨p.1, 0, .inflight p.2 0 0⟩)
+      ++ dids.map (fun i => ⟨i, 0, .deferred 0⟩)
+    let bad : List String :=
+      (if Nsq.Model.Chan.nodupB (msgs.map (·.id)) then [] else ["an id occurs in two places"]) ++
+      (if mem == qids.length then [] else ["memory queue length"]) ++
+      (if eph == "1" || memq > 0 || mem == 0 then [] else ["memory queue used although mem-queue-size is 0"]) ++
+      (if mem ≤ memq || (eph == "1" && memq == 0) then [] else ["memory queue above its capacity"]) ++
+      (if eph == "0" || dq == 0 then [] else ["ephemeral channel with disk depth"]) ++
+      (if mc ≥ msgs.length + dq then [] else ["message_count below the number of messages held"]) ++
+      cl.foldr (fun (c : Nat × Int × Int) acc =>
+        (if c.2.2 == (Nsq.Model.Chan.heldBy msgs c.1 : Int) then [] else [s!"client {c.1} in_flight_count {c.2.2} but holds {Nsq.Model.Chan.heldBy msgs c.1}"]) ++
+        (if c.2.2 ≥ 0 && c.2.1 ≥ 0 then [] else [s!"client {c.1} negative counter"]) ++ acc) []
+    if bad.isEmpty then "rchan ok" else "rchan BAD " ++ "; ".intercalate bad
+  | _, _, _, _ => "bad-op"
+
+def apply (s : State) (op : Nsq.Model.ChanNsqd.Op) (sorted : Bool := false) : State × String :=
+  let r := step s op
+  (r.1, if sorted then showSorted r.2 else showOut r.2)
+
+def stepLine (s : State) (line : String) : State × String :=
+  match words line with
+  | ["conf", memq, maxrdy, maxmsgto, maxreq] =>
+    match nat? memq, int? maxrdy, int? maxmsgto, nat? maxreq with
+    | some m, some r, some mt, some rq =>
+      ({ conf := { memq := m, maxReqMs := rq, chan := { maxRdy := r, maxMsgTimeout := mt } } }, "ok")
+    | _, _, _, _ => (s, "bad-op")
+  | ["topic", t] => match nat? t with
+    | some t => apply s (.createTopic t) | _ => (s, "bad-op")
+  | ["chan", t, c, e] => match nat? t, nat? c with
+    | some t, some c => apply s (.createChan t c (e == "1")) | _, _ => (s, "bad-op")
+  | ["chanraw", t, c, e] => match nat? t, nat? c with
+    | some t, some c => apply s (.createChanRaw t c (e == "1")) | _, _ => (s, "bad-op")
+  | ["refresh", t] => match nat? t with
+    | some t => apply s (.refreshPump t) | _ => (s, "bad-op")
+  | ["sub", k, t, c, e, mt, sm] => match nat? k, nat? t, nat? c, int? mt, nat? sm with
+    | some k, some t, some c, some mt, some sm => apply s (.sub k t c (e == "1") mt sm)
+    | _, _, _, _, _ => (s, "bad-op")
+  | ["disc", k] => match nat? k with
+    | some k => apply s (.disconnect k) | _ => (s, "bad-op")
+  | ["rdy", k, n] => match nat? k with
+    | some k => apply s (.rdy k (parseCount n)) | _ => (s, "bad-op")
+  | ["cls", k] => match nat? k with
+    | some k => apply s (.cls k) | _ => (s, "bad-op")
+  | ["pub", t, sz] => match nat? t, nat? sz with
+    | some t, some sz => apply s (.pub t sz) | _, _ => (s, "bad-op")
+  | ["dpub", t, sz, d] => match nat? t, nat? sz, nat? d with
+    | some t, some sz, some d => apply s (.dpub t sz d) | _, _, _ => (s, "bad-op")
+  | ["mpub", t, szs] => match nat? t, natList szs with
+    | some t, some szs => apply s (.mpub t szs) | _, _ => (s, "bad-op")
+  | ["mpubfail", t, szs, j] => match nat? t, natList szs, nat? j with
+    | some t, some szs, some j => apply s (.mpubFail t szs j) | _, _, _ => (s, "bad-op")
+  | "pump" :: t :: id :: kept :: pris => match nat? t, nat? id, priPairs pris with
+    | some t, some id, some pris => apply s (.pumpTopic t id (kept == "1") pris) true
+    | _, _, _ => (s, "bad-op")
+  | ["deliver", k, id, now] => match nat? k, nat? id, int? now with
+    | some k, some id, some now => apply s (.deliver k id now) | _, _, _ => (s, "bad-op")
+  | ["sdrop", k, id] => match nat? k, nat? id with
+    | some k, some id => apply s (.sampleDrop k id) | _, _ => (s, "bad-op")
+  | ["fin", k, id] => match nat? k, nat? id with
+    | some k, some id => apply s (.fin k id) | _, _ => (s, "bad-op")
+  | ["finchan", k, id] => match nat? k, nat? id with
+    | some k, some id => apply s (.finChan k id) | _, _ => (s, "bad-op")
+  | ["fincli", k] => match nat? k with
+    | some k => apply s (.finClient k) | _ => (s, "bad-op")
+  | ["guard", k] => match nat? k with
+    | some k => apply s (.guard k) | _ => (s, "bad-op")
+  | ["deliverarmed", k, id, now] => match nat? k, nat? id, int? now with
+    | some k, some id, some now => apply s (.deliverArmed k id now) | _, _, _ => (s, "bad-op")
+  | ["req", k, id, d, now] => match nat? k, nat? id, nat? d, int? now with
+    | some k, some id, some d, some now => apply s (.req k id d now) | _, _, _, _ => (s, "bad-op")
+  | ["touch", k, id, now] => match nat? k, nat? id, int? now with
+    | some k, some id, some now => apply s (.touch k id now) | _, _, _ => (s, "bad-op")
+  | ["scanif", t, c, tm] => match nat? t, nat? c, int? tm with
+    | some t, some c, some tm => apply s (.scanInFlight t c tm) true | _, _, _ => (s, "bad-op")
+  | ["scandf", t, c, tm] => match nat? t, nat? c, int? tm with
+    | some t, some c, some tm => apply s (.scanDeferred t c tm) true | _, _, _ => (s, "bad-op")
+  | ["pausec", t, c] => match nat? t, nat? c with
+    | some t, some c => apply s (.pauseChan t c) | _, _ => (s, "bad-op")
+  | ["unpausec", t, c] => match nat? t, nat? c with
+    | some t, some c => apply s (.unpauseChan t c) | _, _ => (s, "bad-op")
+  | ["pauset", t] => match nat? t with
+    | some t => apply s (.pauseTopic t) | _ => (s, "bad-op")
+  | ["unpauset", t] => match nat? t with
+    | some t => apply s (.unpauseTopic t) | _ => (s, "bad-op")
+  | ["empty", t, c] => match nat? t, nat? c with
+    | some t, some c =>
+      let r := step s (.emptyChan t c)
+      (r.1, match r.2 with | .ids l => s!"emptied {l.length}" | o => showOut o)
+    | _, _ => (s, "bad-op")
+  | ["split", t, c, m, d] => match nat? t, nat? c, nat? m, nat? d with
+    | some t, some c, some m, some d => apply s (.resplit t c m d) | _, _, _, _ => (s, "bad-op")
+  | ["dump", t, c] => match nat? t, nat? c with
+    | some t, some c => (s, withChan s t c dumpChan) | _, _ => (s, "bad-op")
+  | ["stats", t, c] => match nat? t, nat? c with
+    | some t, some c => (s, withChan s t c statsChan) | _, _ => (s, "bad-op")
+  | ["tdump", t] => match nat? t with
+    | some t => (s, match findT s.topics t with | some tp => dumpTopic tp | none => "no-topic")
+    | _ => (s, "bad-op")
+  | ["settle"] =>
+    let en := enabledAt s
+    (s, if en.isEmpty then "quiet" else joinSp ("ENABLED" :: en))
+  | ["inv"] => (s, Nsq.Model.ChanInv.invReport s)
+  | ["rchan", eph, memq, mem, dq, mc, q, ifs, dfs, cls] => (s, rchanCheck eph memq mem dq mc q ifs dfs cls)
+  | ["reset"] => ({}, "ok")
+  | _ => (s, "bad-op")
+
+partial def loop (h : IO.FS.Stream) (out : IO.FS.Stream) (s : State) : IO Unit := do
+  let line ← h.getLine
+  if line.isEmpty then return ()
+  let r := stepLine s (line.dropRightWhile (· == '\n'))
+  out.putStrLn r.2
+  loop h out r.1
+
+def main : IO Unit := do
+  let out ← IO.getStdout
+  loop (← IO.getStdin) out {}
+  out.flush
